@@ -117,6 +117,13 @@ def jobs(tier, seed):
         p['raw_starting_stacks'] = (60, 60)
         out.append(_j(f'raise-war-{code or cls_name}', {'game': cls_name, 'autos': 'ALL', 'p': p}, kind='dynamic', cls=cls_name,
                       opts={'raises': 'min', 'fold': False, 'discards': ('none',)}, dev_bound=6 if not th else 7))
+        # three-handed raise wars with one short stack: an all-in for less than a full raise inside a capped round
+        if structure == 'FL':
+            for stacks in [(60, 60, 3), (60, 60, 5), (5, 60, 60)] + ([(60, 3, 60), (60, 60, 7)] if th else []):
+                p = params_for(cls_name, 2, 4, 3)
+                p['raw_starting_stacks'] = stacks
+                out.append(_j(f'raise-war-short-stack-{code or cls_name}', {'game': cls_name, 'autos': 'ALL', 'p': p}, kind='dynamic',
+                              cls=cls_name, opts={'raises': 'min', 'fold': False, 'discards': ('none',)}, dev_bound=6 if not th else 7))
     for cls_name, plan in SPLIT.items():
         out.append(_j('split-two-halves', kind='split', cls=cls_name, plan=plan))
     for j in out:
